@@ -16,7 +16,7 @@ import random
 
 from .fold import TOP, mk_int, mk_enum
 from . import cache, peval, reference as ref
-from .rules_tables import anchor_fn, where_fn
+from .rules_tables import anchor_fn, where_fn, division_routine, call_division
 
 ECL = "ecl::ECL"
 VERSION = "version::Version"
@@ -84,7 +84,7 @@ def _job(job):
     garg = ("ref", ("const", ("array", tuple(items))))
     for name, block in _blocks(n, d, quick, rnd):
         pe.memo = {}
-        r = pe.call("polynomials::division", [("ref", ("const", ("array", tuple(mk_int("u8", b) for b in block)))), garg])
+        r = call_division(pe, _G["div"], ("ref", ("const", ("array", tuple(mk_int("u8", b) for b in block)))), garg)
         if r.kind == "diverge":
             out.append(("diverge", r.why, name))
             continue
@@ -106,11 +106,13 @@ def c07_r3(ctx, f, rid="C07.R3"):
                   "values at the first and a middle position), zero-run, ramp and fixed pseudo-random blocks, for every generator degree "
                   "in use with the crate's own generator: the cells the interleaver reads are the GF(2^8)/0x11D remainder of "
                   "block(x).x^degree modulo g(x)")
-    fn = anchor_fn(ctx, rid, f, "polynomials::division")
+    dv = division_routine(ctx, rid, f)
     gp = anchor_fn(ctx, rid, f, "hardcode::get_polynomial")
-    if not fn or not gp:
+    if not dv or not gp:
         return None
+    fn = dv[0]
     _G["facts"] = f
+    _G["div"] = dv
     quick = ctx.tier != "thorough"
     pairs = _pairs()
     jobs = []
@@ -125,7 +127,7 @@ def c07_r3(ctx, f, rid="C07.R3"):
                         "contents are the stated basis and fixed samples, not all 256^n")
     else:
         ctx.subset(rid, "block contents are the stated basis and fixed samples, not all 256^n")
-    res = cache.pmap(f, "division-concrete", _job, sorted(jobs, key=lambda j: -j[0] * j[1]))
+    res = cache.pmap(f, "division-concrete", _job, sorted(jobs, key=lambda j: -j[0] * j[1]), params=(dv[0].path, dv[1]))
     n_ok = 0
     und, bad = {}, {}
     for (d, n, v, l, _), out in res:
@@ -191,7 +193,7 @@ def _job4(job):
         return job, ("bad", "generator-length", d + 1, glen)
     pe.gf = gfdom.GF()
     pe.memo = {}
-    r = pe.call("polynomials::division", [("ref", ("const", ("array", gfdom.atoms(n)))), ("ref", ("const", ("array", tuple(items))))])
+    r = call_division(pe, _G["div"], ("ref", ("const", ("array", gfdom.atoms(n)))), ("ref", ("const", ("array", tuple(items)))))
     if r.kind == "diverge":
         return job, ("diverge", r.why)
     if r.kind != "ret" or r.value == TOP:
@@ -221,14 +223,16 @@ def c07_r4(ctx, f, rid="C07.R4"):
                   "form over them (branch on a zero coefficient evaluated both ways and merged; log/antilog tables recognised by "
                   "content), each EC codeword the interleaver reads is the linear form of the remainder of block(x).x^degree modulo "
                   "g(x) - for every generator degree and every block length in use")
-    fn = anchor_fn(ctx, rid, f, "polynomials::division")
+    dv = division_routine(ctx, rid, f)
     gp = anchor_fn(ctx, rid, f, "hardcode::get_polynomial")
-    if not fn or not gp:
+    if not dv or not gp:
         return None
+    fn = dv[0]
     _G["facts"] = f
+    _G["div"] = dv
     pairs = _pairs()
     jobs = [(d, n) + pairs[d][n] for d in sorted(pairs) for n in sorted(pairs[d])]
-    res = cache.pmap(f, "division-forms", _job4, sorted(jobs, key=lambda j: -j[0] * j[1]))
+    res = cache.pmap(f, "division-forms", _job4, sorted(jobs, key=lambda j: -j[0] * j[1]), params=(dv[0].path, dv[1]))
     n_ok = 0
     und, bad = {}, {}
     for (d, n, v, l), out in res:
